@@ -265,3 +265,59 @@ func Large(n int, object, dup bool) *Tree {
 	}
 	return Arr(kids...)
 }
+
+// ForEachTop streams every tree with exactly n nodes (n >= 2) built from the materialised
+// smaller trees by[1..n-1] (as returned by Trees(n-1, ...)), in the same order Trees would
+// list them, without storing them: the top level of DOC(k) is by far the largest and need
+// not be kept in memory. f returns false to stop.
+func ForEachTop(by [][]*Tree, n int, keys []string, f func(t *Tree) bool) {
+	stop := false
+	var rec func(rem int, cur []*Tree)
+	emit := func(cur []*Tree) {
+		s := append([]*Tree{}, cur...)
+		if !f(&Tree{Kind: KArr, Kids: s, N: n}) {
+			stop = true
+			return
+		}
+		ks := make([]int, len(s))
+		for {
+			keyl := make([]string, len(s))
+			for i, ki := range ks {
+				keyl[i] = keys[ki]
+			}
+			if !f(&Tree{Kind: KObj, Kids: s, Keys: keyl, N: n}) {
+				stop = true
+				return
+			}
+			i := 0
+			for ; i < len(ks); i++ {
+				ks[i]++
+				if ks[i] < len(keys) {
+					break
+				}
+				ks[i] = 0
+			}
+			if i == len(ks) {
+				return
+			}
+		}
+	}
+	rec = func(rem int, cur []*Tree) {
+		if stop {
+			return
+		}
+		if rem == 0 {
+			emit(cur)
+			return
+		}
+		for m := 1; m <= rem && m < len(by); m++ {
+			for _, t := range by[m] {
+				rec(rem-m, append(cur, t))
+				if stop {
+					return
+				}
+			}
+		}
+	}
+	rec(n-1, nil)
+}
